@@ -198,10 +198,11 @@ def withHere (dflt : β) (act : Nat → Nat → Nat → List Val → HCmd β) : 
     | .fwd t => withHere dflt act f t
     | _ => pure dflt
 
-/-- `ensure_capacity(needed, cap)`: `if needed > cap { self.grow(cap, cap * 2) } else { *self }`.
+/-- `ensure_capacity(needed, cap)`: `if needed > cap { self.grow(cap, (cap * 2).max(needed)) } else { *self }`
+(the `.max(needed)` is the repair of the capacity-0 defect D42/DC16.8: doubling 0 made no room).
 `reloc = false` is the **Spec**: a list never relocates. -/
 def ensureCapacity (reloc : Bool) (b : Nat) (needed cap : Nat) : HCmd Nat :=
-  if reloc && needed > cap then growM b (cap * 2) else pure b
+  if reloc && needed > cap then growM b (max (cap * 2) needed) else pure b
 
 /-- `List::push` -/
 def listPush (reloc : Bool) (fuel : Nat) (a : Nat) (v : Val) : HCmd Unit :=
